@@ -24,6 +24,7 @@ func init() {
 }
 
 func runC19(c *core.Ctx) {
+	base64CountUsed(c, "C19.R3")
 	dec := c.P.Func("ociauth", "decodeConfigFile")
 	if dec == nil {
 		c.Fail("C19.R1", "anchor/ociauth.decodeConfigFile", 0, "ociauth.decodeConfigFile not found")
